@@ -126,7 +126,7 @@ def expect(v: View, win: Tuple[int, int]) -> Expect:
                     last_node, last_top = None, t
                 else:
                     last_node, last_parent = t, par[e.id]
-            elif last_node is not None:
+            elif last_node is not None and last_parent == e.id:
                 last_parent = par[e.id]             # left an event without nodes: what follows belongs to its parent
 
         for root in kids.get(-1, []):
